@@ -157,28 +157,28 @@ def construct_volume(direction, *args, **kwargs):
         degree_u, degree_v, degree_w = degree_other, args[0].degree_u, args[0].degree_v
         size_u, size_v, size_w = size_other, args[0].ctrlpts_size_u, args[0].ctrlpts_size_v
         kv_u, kv_v, kv_w = knotvector_other, args[0].knotvector_u, args[0].knotvector_v
-        # u => w, v => u, w => v
-        for v in range(0, size_v):
-            for w in range(0, size_w):
-                for u in range(0, size_u):
-                    temp_pt = new_ctrlpts[v + (u * size_v) + (w * size_u * size_v)]
-                    updated_ctrlpts.append(temp_pt)
+        # input surfaces are stacked along u: volume point (u, v, w) is the (v, w) point of surface u
+        sz_u_in, sz_v_in = args[0].ctrlpts_size_u, args[0].ctrlpts_size_v
+        for w in range(0, size_w):
+            for u in range(0, size_u):
+                for v in range(0, size_v):
+                    idx = w + (v * sz_v_in) + (u * sz_u_in * sz_v_in)
+                    updated_ctrlpts.append(new_ctrlpts[idx])
                     if rational:
-                        temp_w = new_weights[v + (u * size_v) + (w * size_u * size_v)]
-                        updated_weights.append(temp_w)
+                        updated_weights.append(new_weights[idx])
     elif direction == 'v':
         degree_u, degree_v, degree_w = args[0].degree_u, degree_other, args[0].degree_v
         size_u, size_v, size_w = args[0].ctrlpts_size_u, size_other, args[0].ctrlpts_size_v
         kv_u, kv_v, kv_w = args[0].knotvector_u, knotvector_other, args[0].knotvector_v
-        # u => u, v => w, w => v
-        for v in range(0, size_v):
+        # input surfaces are stacked along v: volume point (u, v, w) is the (u, w) point of surface v
+        sz_u_in, sz_v_in = args[0].ctrlpts_size_u, args[0].ctrlpts_size_v
+        for w in range(0, size_w):
             for u in range(0, size_u):
-                for w in range(0, size_w):
-                    temp_pt = new_ctrlpts[v + (u * size_v) + (w * size_u * size_v)]
-                    updated_ctrlpts.append(temp_pt)
+                for v in range(0, size_v):
+                    idx = w + (u * sz_v_in) + (v * sz_u_in * sz_v_in)
+                    updated_ctrlpts.append(new_ctrlpts[idx])
                     if rational:
-                        temp_w = new_weights[v + (u * size_v) + (w * size_u * size_v)]
-                        updated_weights.append(temp_w)
+                        updated_weights.append(new_weights[idx])
     else:  # direction == 'w'
         degree_u, degree_v, degree_w = args[0].degree_u, args[0].degree_v, degree_other
         size_u, size_v, size_w = args[0].ctrlpts_size_u, args[0].ctrlpts_size_v, size_other
